@@ -96,3 +96,61 @@ func TestVerifC12KyberField(t *testing.T) {
 		vlib.Exhaustive("C12 kyber montReduce: all -2^15·q ≤ x < 2^15·q", n, "all shards together")
 	}
 }
+
+// Every int16 in every SIMD lane position through Poly.Normalize and
+// Poly.BarrettReduce — on the dispatched back-end (AVX2 where the CPU has it)
+// and on the generic code — against x mod q.
+func TestVerifC12KyberPolyReduce(t *testing.T) {
+	defer vlib.Done()
+	const q = 3329
+	const sub = "kyber.field"
+	backend := "generic"
+	if c12HasAVX2() {
+		backend = "avx2"
+	}
+	var cnt int64
+	for rot := 0; rot < 16; rot++ {
+		if rot%vlib.NShards != vlib.Shard {
+			continue
+		}
+		for j := 0; j < 65536/N; j++ {
+			var in, a, b, c, d Poly
+			for i := 0; i < N; i++ {
+				in[i] = int16((j*N+i+rot)%65536 - 32768)
+			}
+			a, b, c, d = in, in, in, in
+			a.Normalize()
+			b.normalizeGeneric()
+			c.BarrettReduce()
+			d.barrettReduceGeneric()
+			for i := 0; i < N; i++ {
+				want := int16(c12ModQ(int64(in[i])))
+				for k, got := range []int16{a[i], b[i]} {
+					if got != want {
+						be := []string{backend, "generic"}[k]
+						if !vlib.ReportDirect(t, "C12/kyber.field/Normalize/"+be+"/wrong-result", fmt.Sprintf("Normalize of coefficient %d (lane %d) = %d, want %d", in[i], i%16, got, want), map[string]interface{}{"x": in[i], "lane": i % 16}) {
+							return
+						}
+					}
+				}
+				for k, got := range []int16{c[i], d[i]} {
+					if got < 0 || got > q || c12ModQ(int64(got)) != int64(want) {
+						be := []string{backend, "generic"}[k]
+						if !vlib.ReportDirect(t, "C12/kyber.field/BarrettReduce/"+be+"/wrong-result", fmt.Sprintf("BarrettReduce of coefficient %d (lane %d) = %d", in[i], i%16, got), map[string]interface{}{"x": in[i], "lane": i % 16}) {
+							return
+						}
+					}
+				}
+			}
+			cnt += 4 * N
+		}
+	}
+	vlib.EvalN(sub, cnt)
+	vlib.ClassN(sub, "op=Poly.Normalize/"+backend, cnt/4)
+	vlib.ClassN(sub, "op=Poly.normalizeGeneric", cnt/4)
+	vlib.ClassN(sub, "op=Poly.BarrettReduce/"+backend, cnt/4)
+	vlib.ClassN(sub, "op=Poly.barrettReduceGeneric", cnt/4)
+	if vlib.Shard == 0 {
+		vlib.Exhaustive("C12 kyber Poly.Normalize / Poly.BarrettReduce ("+backend+" and generic): all 2^16 int16 in all 16 lane positions", 4*16*65536, "all shards together")
+	}
+}
